@@ -1,4 +1,5 @@
 import Stackage.Model.Val
+import Stackage.Model.Render
 
 /-!
 # `IsEqual`: the default equality assertion (stack.go, cond.go, misc.go), repaired code
@@ -264,6 +265,14 @@ def handleStruct (isCond : Bool) (f : Form) : EV :=
 /-- capacity of a `[]any` grown by `append` one element at a time from `[]any{}` (lengths ≤ 256) -/
 def anysCap (n : Nat) : Nat := if n == 0 then 0 else Nat.nextPowerOfTwo n
 
+/-- an Operator value held in an `any`: nil, a `ComparisonOperator` (a declared `uint8`: never a known primitive), or the
+harness's user operator `UOp{ID int; Str, Ctx string}` -/
+def opEV : Op → EV
+  | .none => .inil
+  | .cmp c => .named 900 (natText c)
+  | .user id s c => .struct 103 [⟨"ID".toList, true, false⟩, ⟨"Str".toList, true, false⟩, ⟨"Ctx".toList, true, false⟩]
+      [.prim 1 (natText id) false, .prim 16 s false, .prim 16 c false]
+
 /-- an element of a `[]any` as a `reflect.Value` of Kind Interface -/
 def Val.anyElem : Val → EV
   | .nil => .inil
@@ -273,6 +282,7 @@ def Val.anyElem : Val → EV
   | .cnd f _ _ _ _ => .iface (handleStruct true f)
   | .zcnd f => .iface (handleStruct true f)
   | .anys _ => .iface (.seq false 4 0 [])
+  | .opv o => (match EV.unbox (opEV o) with | none => .inil | some e => .iface e)
 
 /-- a slot value as `reflect` sees it when it is *not* taken for a stackage instance -/
 def Val.toEV : Val → EV
@@ -283,12 +293,7 @@ def Val.toEV : Val → EV
   | .cnd f _ _ _ _ => handleStruct true f
   | .zcnd f => handleStruct true f
   | .anys xs => .seq false 4 (anysCap xs.length) (xs.map Val.anyElem)
-
-/-- `foldValue` -/
-def foldValue (fold : Bool) (v : Text) : Text :=
-  match v with
-  | [] => []
-  | c :: _ => if fold then (if c.isUpper then v.map Char.toLower else v.map Char.toUpper) else v
+  | .opv o => opEV o
 
 /-- `nodeConfig.kind()` -/
 def Cfg.kindStr (c : Cfg) : Text :=
@@ -296,16 +301,7 @@ def Cfg.kindStr (c : Cfg) : Text :=
     foldValue (c.kind != 0 && Gen.cfgFlag_positive c.opt Gen.flag_cfold) (Gen.kindWord c.kind)
   else "null".toList
 
-/-- `Operator.String()` / `.Context()` of a non-nil operator -/
-def Op.text : Op → Text
-  | .none => []
-  | .cmp c => Gen.opText c
-  | .user _ s _ => s
-
-def Op.ctx : Op → Text
-  | .none => []
-  | .cmp _ => Gen.compOpCtx
-  | .user _ _ c => c
+/-! `Op.text` / `Op.ctx` (`Operator.String()` / `.Context()`) are defined in `Model/Render.lean`. -/
 
 def Op.isNil : Op → Bool
   | .none => true
@@ -357,6 +353,7 @@ def Val.veq (hook : EqHook) : Val → Val → EqRes
   | .zstk f, y => EV.veq false false (handleStruct false f) (EV.sideAny y.toEV)
   | .zcnd f, y => EV.veq false false (handleStruct true f) (EV.sideAny y.toEV)
   | .anys xs, y => EV.veq false false (Val.toEV (.anys xs)) (EV.sideAny y.toEV)
+  | .opv o, y => EV.veq false false (opEV o) (EV.sideAny y.toEV)
 
 /-- the loop of `stack.isEqual`: `valuesEqual(r.index(i), o.index(i))` for `i < r.ulen()` -/
 def stkLoop (hook : EqHook) : List Val → List Val → EqRes
